@@ -606,26 +606,32 @@ package main
 //@   loop 1 invariant frame: unchangedBelow("Mem:OMap") && newMap > old(heapTop) && newMap <= heapTop && !isTable(newMap) && (el == nil || (elMap(el) == mapOf(stage) && 0 <= elPos(el) && elPos(el) < omLen(A)))
 //@   loop 1 invariant key-path-frame: unchangedBelowExcept("Arr:Str", base(keyPath))
 //@   loop 1 invariant relation {C01,C02,C03,C04,C05,C12,C14,C15,C19}: PAcc(c, redactFieldNames, inSearchStage, A, ite(el == nil, omLen(A), elPos(el)), om(newMap))
-//@   loop 2 invariant frame: unchangedBelow("Mem:OMap") && newPipelineMap > old(heapTop) && newPipelineMap <= heapTop && !isTable(newPipelineMap) && newPipelineMap != newMap && (subEl == nil || (elMap(subEl) == vMap && 0 <= elPos(subEl) && elPos(subEl) < omLen(old(om(vMap)))))
 //@   loop 2 invariant key-path-frame: unchangedBelowExcept("Arr:Str", base(keyPath))
-//@   loop 2 invariant outer-relation: PAcc(c, redactFieldNames, inSearchStage, A, elPos(el), om(newMap))
-//@   loop 2 invariant sub-pipelines {C01,C02,C03,C04,C05,C12,C14,C15,C19}: FAcc(old(om(vMap)), ite(subEl == nil, omLen(old(om(vMap))), elPos(subEl)), om(newPipelineMap))
+//@   loop 2 each stage-relation {C01,C02,C03,C04,C05,C12,C14,C15,C19}: RelS(c, redactFieldNames, true, stage, subPipeline[_idx]) || RelS(c, redactFieldNames, false, stage, subPipeline[_idx])
+//@   loop 3 invariant frame: unchangedBelow("Mem:OMap") && newPipelineMap > old(heapTop) && newPipelineMap <= heapTop && !isTable(newPipelineMap) && newPipelineMap != newMap && (subEl == nil || (elMap(subEl) == vMap && 0 <= elPos(subEl) && elPos(subEl) < omLen(old(om(vMap)))))
 //@   loop 3 invariant key-path-frame: unchangedBelowExcept("Arr:Str", base(keyPath))
-//@   loop 3 each stage-relation {C01,C02,C03,C04,C05,C12,C14,C15,C19}: RelS(c, redactFieldNames, true, stage, newPipeline[_idx]) || RelS(c, redactFieldNames, false, stage, newPipeline[_idx])
+//@   loop 3 invariant outer-relation: PAcc(c, redactFieldNames, inSearchStage, A, elPos(el), om(newMap))
+//@   loop 3 invariant sub-pipelines {C01,C02,C03,C04,C05,C12,C14,C15,C19}: FAcc(old(om(vMap)), ite(subEl == nil, omLen(old(om(vMap))), elPos(subEl)), om(newPipelineMap))
 //@   loop 4 invariant key-path-frame: unchangedBelowExcept("Arr:Str", base(keyPath))
-//@   loop 4 each element-relation {C01,C02,C03,C04,C05,C12,C14,C15,C19}: RelS(c, redactFieldNames, inSearchStage, elem, redactedArr[_idx])
-//@   loop 5 invariant frame: unchangedBelow("Mem:OMap") && newSubMap > old(heapTop) && newSubMap <= heapTop && !isTable(newSubMap) && newSubMap != newMap && (subEl == nil || (elMap(subEl) == subMap && 0 <= elPos(subEl) && elPos(subEl) < omLen(old(om(subMap)))))
+//@   loop 4 each stage-relation {C01,C02,C03,C04,C05,C12,C14,C15,C19}: RelS(c, redactFieldNames, true, stage, newPipeline[_idx]) || RelS(c, redactFieldNames, false, stage, newPipeline[_idx])
 //@   loop 5 invariant key-path-frame: unchangedBelowExcept("Arr:Str", base(keyPath))
-//@   loop 5 invariant outer-relation: PAcc(c, redactFieldNames, inSearchStage, A, elPos(el), om(newMap)) && (isTable(mapOf(opMeta)) || (inSearchStage && AugState(om(mapOf(opMeta))) && implies(redactedFieldsRegexp == nil, TableState(om(mapOf(opMeta))))))
-//@   loop 5 invariant relation-sub {C01,C02,C03,C04,C05,C12,C14,C15,C19}: PAcc(c, redactFieldNames, inSearchStage, old(om(subMap)), ite(subEl == nil, omLen(old(om(subMap))), elPos(subEl)), om(newSubMap))
+//@   loop 5 each element-relation {C01,C02,C03,C04,C05,C12,C14,C15,C19}: RelS(c, redactFieldNames, inSearchStage, elem, redactedArr[_idx])
+//@   loop 6 invariant frame: unchangedBelow("Mem:OMap") && newSubMap > old(heapTop) && newSubMap <= heapTop && !isTable(newSubMap) && newSubMap != newMap && (subEl == nil || (elMap(subEl) == subMap && 0 <= elPos(subEl) && elPos(subEl) < omLen(old(om(subMap)))))
 //@   loop 6 invariant key-path-frame: unchangedBelowExcept("Arr:Str", base(keyPath))
-//@   loop 6 each element-relation {C01,C02,C03,C04,C05,C12,C14,C15,C19}: RelS(c, redactFieldNames, inSearchStage, elem, redactedArr[_idx])
+//@   loop 6 invariant outer-relation: PAcc(c, redactFieldNames, inSearchStage, A, elPos(el), om(newMap)) && (isTable(mapOf(opMeta)) || (inSearchStage && AugState(om(mapOf(opMeta))) && implies(redactedFieldsRegexp == nil, TableState(om(mapOf(opMeta))))))
+//@   loop 6 invariant relation-sub {C01,C02,C03,C04,C05,C12,C14,C15,C19}: PAcc(c, redactFieldNames, inSearchStage, old(om(subMap)), ite(subEl == nil, omLen(old(om(subMap))), elPos(subEl)), om(newSubMap))
+//@   loop 7 invariant key-path-frame: unchangedBelowExcept("Arr:Str", base(keyPath))
+//@   loop 7 each element-relation {C01,C02,C03,C04,C05,C12,C14,C15,C19}: RelS(c, redactFieldNames, inSearchStage, elem, redactedArr[_idx])
+//@   loop 8 invariant key-path-frame: unchangedBelowExcept("Arr:Str", base(keyPath))
+//@   loop 8 each stage-relation {C01,C02,C03,C04,C05,C12,C14,C15,C19}: RelS(c, redactFieldNames, true, stage, newPipeline[_idx]) || RelS(c, redactFieldNames, false, stage, newPipeline[_idx])
 //@   assert_after (*orderedmap.OrderedMap).Set@newMap entry-done {C01,C02,C03,C04,C05,C12,C14,C15,C19}: PAcc(c, redactFieldNames, inSearchStage, A, elPos(el) + 1, om(newMap))
 //@   assert_after (*orderedmap.OrderedMap).Set@newSubMap sub-entry-done {C01,C02,C03,C04,C05,C12,C14,C15,C19}: PAcc(c, redactFieldNames, inSearchStage, old(om(subMap)), elPos(subEl) + 1, om(newSubMap))
 //@   at_call (*orderedmap.OrderedMap).Set@newMap entry-relation {C01,C02,C03,C04,C05,C12,C14,C15,C19}: implies(!((opMeta == VOp(1) && isArr(v) && value == v)), keyOKq(c, redactFieldNames, k, key) && ElemRelP(c, redactFieldNames, inSearchStage, k, v, value, om(mapOf(v)), om(mapOf(value))))
 //@   at_call (*orderedmap.OrderedMap).Set@newMap entry-relation-array-kept-under-an-exempt-key {C01,C02,C03,C04,C05,C12,C14,C15,C19}: implies((opMeta == VOp(1) && isArr(v) && value == v), keyOKq(c, redactFieldNames, k, key) && ElemRelP(c, redactFieldNames, inSearchStage, k, v, value, om(mapOf(v)), om(mapOf(value))))
 //@   at_call (*orderedmap.OrderedMap).Set@newSubMap sub-entry-relation {C01,C02,C03,C04,C05,C12,C14,C15,C19}: implies(!((subMeta == VOp(1) && isArr(subV) && value == subV)), keyOKq(c, redactFieldNames, subK, key) && ElemRelP(c, redactFieldNames, inSearchStage, subK, subV, value, om(mapOf(subV)), om(mapOf(value))))
 //@   at_call (*orderedmap.OrderedMap).Set@newSubMap sub-entry-relation-array-kept-under-an-exempt-key {C01,C02,C03,C04,C05,C12,C14,C15,C19}: implies((subMeta == VOp(1) && isArr(subV) && value == subV), keyOKq(c, redactFieldNames, subK, key) && ElemRelP(c, redactFieldNames, inSearchStage, subK, subV, value, om(mapOf(subV)), om(mapOf(value))))
+//@   at_call (*orderedmap.OrderedMap).Set@newMap a-sub-pipeline-is-rebuilt-stage-by-stage {C01,C02,C03,C04,C05,C12,C14,C15,C19}: implies(opMeta == VOp(0) && isArr(v), isArr(value) && len(arrOf(value)) == len(arrOf(v)) && (len(arrOf(v)) == 0 || base(arrOf(value)) != base(arrOf(v))))
+//@   at_call (*orderedmap.OrderedMap).Set@newSubMap a-sub-pipeline-is-rebuilt-stage-by-stage {C01,C02,C03,C04,C05,C12,C14,C15,C19}: implies(subFound && subMeta == VOp(0) && isArr(subV), isArr(value) && len(arrOf(value)) == len(arrOf(subV)) && (len(arrOf(subV)) == 0 || base(arrOf(value)) != base(arrOf(subV))))
 //@   at_call (*orderedmap.OrderedMap).Set@newPipelineMap facet-entry-relation {C01,C02,C03,C04,C05,C12,C14,C15,C19}: key == subK && FacetEntryRel(subV, value)
 //@   ensures key-path-frame: unchangedBelowExcept("Arr:Str", base(keyPath))
 //@   at_call redactPipelineStage search-mode-is-decided-for-each-stage-on-its-own {C01,C02,C03,C04,C05,C12,C14,C15,C19}: implies(len(arg_keyPath) == 0, IsSearch(arg_stage, arg_inSearchStage))
@@ -639,7 +645,7 @@ package main
 //@   ensures result-kind {C03}: (isMap(stage) && isMap(result) && mapOf(result) > old(heapTop) && mapOf(result) <= heapTop && !isTable(mapOf(result))) || (isArr(stage) && result == stage) || (!isMap(stage) && !isArr(stage) && result == stage)
 //@   defines stage-relation {C01,C02,C03,C04,C05,C12,C14,C15,C19}: RelS(c, redactFieldNames, inSearchStage, stage, result) := (isMap(stage) && isMap(result) && PRel(c, redactFieldNames, inSearchStage, A, om(mapOf(result)))) || (isArr(stage) && result == stage && RelA(c, redactFieldNames, inSearchStage, ite(len(keyPath) > 0, keyPath[len(keyPath)-1], ""), arrOf(stage))) || (!isMap(stage) && !isArr(stage) && result == stage)
 //@   loop 1 each exempt-parameters-are-kept-as-they-are {C04}: implies(opMeta == VOp(1) && !isArr(v), omIdx(om(newMap), redactedKey) >= 0 && omVal(om(newMap), omIdx(om(newMap), redactedKey)) == v)
-//@   loop 5 each exempt-parameters-are-kept-as-they-are {C04}: implies(subMeta == VOp(1) && subFound && !isArr(subV), omIdx(om(newSubMap), subK) >= 0 && omVal(om(newSubMap), omIdx(om(newSubMap), subK)) == subV)
+//@   loop 6 each exempt-parameters-are-kept-as-they-are {C04}: implies(subMeta == VOp(1) && subFound && !isArr(subV), omIdx(om(newSubMap), subK) >= 0 && omVal(om(newSubMap), omIdx(om(newSubMap), subK)) == subV)
 
 //@ func redactCommand
 //@   safety C07
